@@ -146,10 +146,10 @@ func runReqObj(t *testing.T, c *engine.Check) {
 			return skip
 		},
 		NewWorker: func(int) func(engine.Vec) engine.Result {
-			rigs := map[string]*rig.Rig{"on": newRig(true), "off": newRig(false)}
 			return func(v engine.Vec) engine.Result {
 				g := func(n string) string { return sp.Get(v, n) }
-				return reqobjCase(t, rigs[g("feature")], g)
+				// a provider of its own for every execution (histories: part history-reqobj)
+				return reqobjCase(t, newRig(g("feature") == "on"), g)
 			}
 		},
 	})
